@@ -105,7 +105,7 @@ theorem ifSetData_eq (b ids v : Bytes) (hb : 36 ≤ b.length) :
 
 theorem if_facts (b ids v o : Bytes)
     (ho : o = b.take 36 ++ (beEnc 2 ids.length ++ (ids ++ (zeros (ids.length % 2) ++ (beEnc 2 v.length ++ v)))))
-    (hb : 36 ≤ b.length) (hi : ids.length < 65535) (hv : v.length < 65536) :
+    (hb : 36 ≤ b.length) (hi : ids.length < 65536) (hv : v.length < 65536) :
     o.take 36 = b.take 36 ∧ o.length = 36 + 2 + ids.length + ids.length % 2 + 2 + v.length ∧
     beAt o 36 2 = ids.length ∧ slice o 38 ids.length = ids ∧
     slice o (38 + ids.length) (ids.length % 2) = zeros (ids.length % 2) ∧
@@ -141,9 +141,8 @@ theorem if_facts (b ids v o : Bytes)
       rw [ho]; simp only [List.append_assoc, List.append_nil]
     rw [e]
     exact slice_at _ _ _ _ _ (by simp [hP, hZ]; omega) rfl
-  have hcp : (ids.length + ids.length % 2) % 65536 = ids.length + ids.length % 2 := by omega
   refine ⟨htake, hlen, hc, hids, hpad, hvl, hvd, ?_, ?_⟩
-  · simp only [ifAccess, C03.rd_ok o 0 36 (by omega), C03.rd_ok o 36 2 (by omega), hc, hcp, bind,
+  · simp only [ifAccess, C03.rd_ok o 0 36 (by omega), C03.rd_ok o 36 2 (by omega), hc, bind,
       Option.bind, pure, ← Nat.add_assoc,
       C03.rd_ok o (38 + ids.length + ids.length % 2) 2 (by omega), hvl]
   · intro h29
